@@ -94,6 +94,9 @@ func genPredicates(quick bool, yield func(*tgram) bool) {
 				shapes = []pred{{{sel[0], sel[1]}}, {{sel[0]}, {sel[1]}}}
 			case 3:
 				shapes = []pred{{{sel[0], sel[1], sel[2]}}, {{sel[0], sel[1]}, {sel[2]}}, {{sel[0]}, {sel[1], sel[2]}}, {{sel[0]}, {sel[1]}, {sel[2]}}}
+			case 4:
+				a, b, c, d := sel[0], sel[1], sel[2], sel[3]
+				shapes = []pred{{{a, b, c, d}}, {{a, b, c}, {d}}, {{a}, {b, c, d}}, {{a, b}, {c, d}}, {{a, b}, {c}, {d}}, {{a}, {b, c}, {d}}, {{a}, {b}, {c, d}}, {{a}, {b}, {c}, {d}}}
 			}
 			for _, sh := range shapes {
 				for _, pl := range placements {
@@ -124,7 +127,10 @@ func genPredicates(quick bool, yield func(*tgram) bool) {
 		emit(small, 3, []int{0, 3})
 		return
 	}
-	emit(prims, 3, all)
+	if !emit(prims, 3, all) {
+		return
+	}
+	emit(small, 4, []int{0, 2}) // beyond the stated bound: 4 primaries over 8 of them
 }
 
 // ---------- declaration styles
